@@ -31,7 +31,7 @@ fn un<T: DeserializeOwned>(s: &str) -> Result<T, String> {
 }
 
 pub fn generate<C: Impl>(group: &str, tables: &Tables, out: &mut Vec<Value>) {
-    let conc = Conc { atom_len: 5, seed: 18 };
+    let conc = Conc { atom_len: 5, seed: 18, alphabet: 0 };
     let lib = Lib { conc: &conc, tables };
     // ---- every data type
     macro_rules! one {
@@ -175,7 +175,7 @@ pub fn det_ops<C: Impl>(group: &str) -> Vec<(String, String)> {
 
 /// replay one golden entry into the current tree; returns (class key, ok, detail)
 fn check_entry<C: Impl>(e: &Value, tables: &Tables) -> Vec<(String, bool, String)> {
-    let conc = Conc { atom_len: 5, seed: 18 };
+    let conc = Conc { atom_len: 5, seed: 18, alphabet: 0 };
     let lib = Lib { conc: &conc, tables };
     let mut res: Vec<(String, bool, String)> = vec![];
     let kind = gets(e, "kind");
